@@ -562,7 +562,7 @@ def check_ortho(case):
     if ok and case.get("auth") and v == (3, 4) and not case.get("no_pha"):
         # post-handshake authentication uses the same settings
         from vlib.driver import drive
-        outs, _ = drive({"s": p.s.request_post_handshake_auth()}, p.link,
+        outs, _ = drive({"s": p.s.request_post_handshake_auth(ss)}, p.link,
                         on_stall="leave")
         oc = sc.do_read(p, "c", 10, 0)
         os_ = sc.do_read(p, "s", 10, 0)
